@@ -7,6 +7,8 @@ import (
 
 	"pgregory.net/rapid"
 
+	"verifharness/gen"
+	"verifharness/ref"
 	"verifharness/spec"
 )
 
@@ -243,4 +245,321 @@ func ruleStrings(b *Built, rs []int) []string {
 		o = append(o, fmt.Sprintf("%d: %s", r, b.A.G.RuleString(r)))
 	}
 	return o
+}
+
+// ---------------------------------------------------------------------
+// expression level (tier G)
+
+type C04Expr struct {
+	Spec   *spec.Spec    `json:"spec"`
+	Table  *spec.OpTable `json:"optable,omitempty"`
+	Kind   string        `json:"kind"` // operators | dangling-else | duplicate-rules
+	Inputs [][]int       `json:"inputs"`
+	Text   string        `json:"grammar_text"`
+}
+
+func init() {
+	Register(&Unit{Prop: "C04", Name: "expr",
+		Shards: func(tier string) int { return map[string]int{"quick": 4, "thorough": 8}[tier] },
+		Run: func(c *Ctx) {
+			c.P.Rule = "operator tables (1-5 levels, any associativity, 1-3 binary operators per level, operators without precedence, prefix operators via %prec pseudo-tokens or own level, parentheses) x 40 generated expressions (long same-level chains, mixed levels, nonassoc chains, damaged ones), dangling-else grammars and grammars with duplicated rules; five variants; semantic value = fully parenthesised string; non-trivial = expression with >= 2 operators from >= 2 levels or a same-level chain of >= 3"
+			n := c.Pick(36, 500)
+			g := rapid.Custom(drawC04Expr)
+			batch := 24
+			for done := 0; done < n; done += batch {
+				var cases []*C04Expr
+				for i := 0; i < batch && done+i < n; i++ {
+					cases = append(cases, g.Example(int(c.SubSeed("case", done+i)>>1)))
+				}
+				if runC04Expr(c, cases) {
+					return
+				}
+			}
+		},
+		Replay: func(c *Ctx, raw json.RawMessage) string {
+			var cs C04Expr
+			if m := decodeCase(raw, &cs); m != "" {
+				return m
+			}
+			c04Msg = ""
+			runC04Expr(c, []*C04Expr{&cs})
+			return c04Msg
+		},
+	})
+}
+
+var c04Msg string
+
+func drawC04Expr(t *rapid.T) *C04Expr {
+	switch k := rapid.IntRange(0, 9).Draw(t, "kind"); {
+	case k == 0:
+		// dangling else: S : IF S | IF S ELSE S | X
+		s := &spec.Spec{Prologue: spec.DefPrologue, Union: spec.DefUnion, Epilogue: spec.DefEpilogue, Fields: []string{"str"}}
+		s.Terms = []spec.Term{{Name: "IF", Decl: "token"}, {Name: "ELSE", Decl: "token"}, {Name: "X", Decl: "token", Tag: "str"}}
+		s.NTs = []spec.NonTerm{{Name: "stmt", Tag: "str"}}
+		rules := []spec.Rule{
+			{LHS: 0, RHS: []int{0, 3}, Prec: -1, Sem: &spec.Sem{Kind: "cat", Parts: []spec.SemPart{{Text: "(if "}, {Pos: 2}, {Text: ")"}}}},
+			{LHS: 0, RHS: []int{0, 3, 1, 3}, Prec: -1, Sem: &spec.Sem{Kind: "cat", Parts: []spec.SemPart{{Text: "(if "}, {Pos: 2}, {Text: " else "}, {Pos: 4}, {Text: ")"}}}},
+			{LHS: 0, RHS: []int{2}, Prec: -1, Sem: &spec.Sem{Kind: "cat", Parts: []spec.SemPart{{Pos: 1}}}},
+		}
+		perm := rapid.Permutation(seq(3)).Draw(t, "perm")
+		for _, p := range perm {
+			s.Rules = append(s.Rules, rules[p])
+		}
+		cs := &C04Expr{Spec: s, Kind: "dangling-else"}
+		for i := 0; i < 30; i++ {
+			var w []int
+			n := rapid.IntRange(0, 6).Draw(t, "nifs")
+			for j := 0; j < n; j++ {
+				w = append(w, 0)
+			}
+			w = append(w, 2)
+			ne := rapid.IntRange(0, n).Draw(t, "nelse")
+			for j := 0; j < ne; j++ {
+				w = append(w, 1)
+				ni := rapid.IntRange(0, 2).Draw(t, "ni")
+				for q := 0; q < ni; q++ {
+					w = append(w, 0)
+				}
+				w = append(w, 2)
+			}
+			cs.Inputs = append(cs.Inputs, w)
+		}
+		cs.Text = s.Render(spec.RenderOpts{})
+		return cs
+	case k == 1:
+		// duplicated rules: the first of two identical rules must be used
+		tg := drawTG(t, []string{"productive", "lalr"}, 60, 10)
+		s := tg.Spec
+		nd := rapid.IntRange(1, 3).Draw(t, "ndup")
+		for i := 0; i < nd; i++ {
+			r := s.Rules[rapid.IntRange(0, len(s.Rules)-1).Draw(t, "dup")]
+			r.RHS = append([]int{}, r.RHS...)
+			at := rapid.IntRange(0, len(s.Rules)).Draw(t, "dupat")
+			s.Rules = append(s.Rules[:at:at], append([]spec.Rule{r}, s.Rules[at:]...)...)
+		}
+		cs := &C04Expr{Spec: s, Kind: "duplicate-rules", Inputs: drawInputs(t, s, 60, 10)}
+		cs.Text = s.Render(spec.RenderOpts{})
+		return cs
+	default:
+		s, ot := spec.Operator(t)
+		cs := &C04Expr{Spec: s, Table: ot, Kind: "operators"}
+		seen := map[string]bool{}
+		for i := 0; i < 40; i++ {
+			w := spec.DrawExpr(t, ot)
+			if k := fmt.Sprint(w); !seen[k] {
+				seen[k] = true
+				cs.Inputs = append(cs.Inputs, w)
+			}
+		}
+		cs.Text = s.Render(spec.RenderOpts{})
+		return cs
+	}
+}
+
+func opGrammar(s *spec.Spec, ot *spec.OpTable) *ref.OpGrammar {
+	g := &ref.OpGrammar{Atom: ot.Atom, LP: ot.LP, RP: ot.RP, Binary: map[int]ref.OpDef{}, Prefix: map[int]ref.OpDef{}}
+	conv := func(o spec.OpInfo) ref.OpDef {
+		return ref.OpDef{Term: o.Term, RuleLevel: o.Level, RuleAssoc: o.Assoc, TokLevel: o.TokLv, TokAssoc: o.TokAs, Text: o.Text}
+	}
+	for _, o := range ot.Binary {
+		g.Binary[o.Term] = conv(o)
+	}
+	for _, o := range ot.Prefix {
+		g.Prefix[o.Term] = conv(o)
+	}
+	g.AtomText = func(pos int) string { return gen.TokenStrValue(s, pos, ot.Atom) }
+	return g
+}
+
+// danglingElse is the reference for  S : IF S | IF S ELSE S | X  with the
+// else bound to the nearest if (greedy recursive descent).
+func danglingElse(s *spec.Spec, w []int) (string, bool) {
+	pos := 0
+	var stmt func() (string, bool)
+	stmt = func() (string, bool) {
+		if pos >= len(w) {
+			return "", false
+		}
+		switch w[pos] {
+		case 2:
+			pos++
+			return gen.TokenStrValue(s, pos-1, 2), true
+		case 0:
+			pos++
+			a, ok := stmt()
+			if !ok {
+				return "", false
+			}
+			if pos < len(w) && w[pos] == 1 {
+				pos++
+				b, ok := stmt()
+				if !ok {
+					return "", false
+				}
+				return "(if " + a + " else " + b + ")", true
+			}
+			return "(if " + a + ")", true
+		}
+		return "", false
+	}
+	v, ok := stmt()
+	if !ok || pos != len(w) {
+		return "", false
+	}
+	return v, true
+}
+
+func runC04Expr(c *Ctx, cases []*C04Expr) bool {
+	var tgs []*TGCase
+	for _, cs := range cases {
+		tgs = append(tgs, &TGCase{Family: cs.Kind, Spec: cs.Spec, Inputs: cs.Inputs, Text: cs.Text})
+	}
+	res, cleanup := runTG(c, tgs, false)
+	defer cleanup()
+	if res == nil {
+		return true
+	}
+	for i, cs := range cases {
+		vr := res[fmt.Sprintf("g%d", i)]
+		s := cs.Spec
+		fail := func(in []int, format string, a ...interface{}) bool {
+			msg := fmt.Sprintf(format, a...) + "\ngrammar:\n" + cs.Text
+			small := *cs
+			if in != nil {
+				small.Inputs = [][]int{in}
+			}
+			c04Msg = msg
+			c.Violate(&small, msg)
+			return true
+		}
+		var og *ref.OpGrammar
+		if cs.Kind == "operators" {
+			og = opGrammar(s, cs.Table)
+		}
+		rfacts := refFacts(s)
+		ok := true
+		for _, v := range gen.AllVariants {
+			r := vr[v.Name]
+			if r == nil || r.Gen.Failed() {
+				c.Class("rejected-by-yaccgo")
+				ok = false
+				break
+			}
+			if !r.Built || r.TimedOut || len(r.Lines) < len(cs.Inputs) {
+				c.Exclude("generated file does not build or run (C16/C06's business)")
+				ok = false
+				break
+			}
+		}
+		if !ok {
+			continue
+		}
+		for k, in := range cs.Inputs {
+			var want string
+			wantOK := false
+			switch cs.Kind {
+			case "operators":
+				v, err := og.Eval(in)
+				want, wantOK = v, err == nil
+				if len(cs.Table.Prefix) == 0 && allHavePrec(cs.Table) {
+					v2, err2 := og.EvalClimb(in)
+					if (err2 == nil) != wantOK || (wantOK && v2 != v) {
+						c.Infra("reference evaluators disagree on %v: shift-reduce %q/%v, precedence climbing %q/%v\n%s", in, v, err, v2, err2, cs.Text)
+						return true
+					}
+					c.Class("oracle-cross-checked-with-precedence-climbing")
+				}
+			case "dangling-else":
+				want, wantOK = danglingElse(s, in)
+			}
+			for _, v := range gen.AllVariants {
+				pr, err := vr[v.Name].ParseRes(k)
+				if err != nil {
+					c.Infra("%v", err)
+					return true
+				}
+				c.Eval(1)
+				switch cs.Kind {
+				case "duplicate-rules":
+					if pr.Verdict == "accept" && !rfacts.hasPrec {
+						for _, rn := range pr.Trace {
+							for e := 1; e < rn; e++ {
+								a, b := s.Rules[e-1], s.Rules[rn-1]
+								if a.LHS == b.LHS && fmt.Sprint(a.RHS) == fmt.Sprint(b.RHS) {
+									return fail(in, "variant %s reduces %s by rule %d although the identical rule %d appears earlier in the grammar file (reductions %v)", v.Name, inputNames(s, in), rn, e, pr.Trace)
+								}
+							}
+						}
+						if len(pr.Trace) > 0 {
+							c.Class("duplicate-rule-parses-checked")
+						}
+					}
+				default:
+					if wantOK {
+						got, _ := pr.Val["str"].(string)
+						if pr.Verdict != "accept" {
+							return fail(in, "variant %s rejects %s (%s %s); by the declared precedences it groups as %s", v.Name, inputNames(s, in), pr.Verdict, clip(pr.Msg, 100), want)
+						}
+						if got != want {
+							return fail(in, "variant %s groups %s as %s; the declarations say %s", v.Name, inputNames(s, in), got, want)
+						}
+					} else if pr.Verdict == "accept" {
+						return fail(in, "variant %s accepts %s as %v although it is a syntax error by the declarations (e.g. a chain of %%nonassoc operators)", v.Name, inputNames(s, in), pr.Val["str"])
+					}
+				}
+			}
+			if wantOK && exprNontrivial(cs, in) {
+				c.Nontrivial(Hash(cs.Text, fmt.Sprint(in)))
+				if c.WantSample() {
+					c.Sample(map[string]interface{}{"kind": cs.Kind, "grammar": cs.Text, "input": inputNames(s, in), "grouping": want})
+				}
+			}
+		}
+		c.Class("kind:" + cs.Kind)
+	}
+	return false
+}
+
+func allHavePrec(ot *spec.OpTable) bool {
+	for _, o := range ot.Binary {
+		if o.TokLv == 0 {
+			return false
+		}
+	}
+	return true
+}
+
+func exprNontrivial(cs *C04Expr, in []int) bool {
+	if cs.Kind == "dangling-else" {
+		n := 0
+		for _, x := range in {
+			if x == 1 {
+				n++
+			}
+		}
+		return n >= 1 && len(in) >= 4
+	}
+	if cs.Table == nil {
+		return false
+	}
+	levels := map[int]int{}
+	ops := 0
+	for _, x := range in {
+		for _, o := range cs.Table.Binary {
+			if o.Term == x {
+				levels[o.TokLv]++
+				ops++
+			}
+		}
+	}
+	if ops >= 2 && len(levels) >= 2 {
+		return true
+	}
+	for _, n := range levels {
+		if n >= 3 {
+			return true
+		}
+	}
+	return false
 }
